@@ -147,6 +147,7 @@ func cmdLayoutSweep(args []string) error {
 	traces := fs.String("traces", "", "also write reader traces of the real lexer for a few layouts")
 	maxpad := fs.Int("maxpad", 2*4096+64, "largest padding")
 	step := fs.Int("step", 1, "padding step outside the critical windows")
+	only := fs.String("only", "", "emit the canonical layout and this variant only (replay)")
 	shard := fs.String("shard", "0/1", "i/n")
 	if err := fs.Parse(args); err != nil {
 		return err
@@ -189,6 +190,9 @@ func cmdLayoutSweep(args []string) error {
 			toks := specToks("t", s.Decls, optSemi)
 			ref := ""
 			emit := func(variant, lead, sep, eol string, stripFinal bool) error {
+				if *only != "" && variant != "canonical" && variant != *only {
+					return nil
+				}
 				ts := make([]PTok, len(toks))
 				copy(ts, toks)
 				text := layout(ts, lead, sep, eol)
